@@ -143,22 +143,49 @@ pub fn replay(case: &Value) -> Result<(), String> {
     let p: Vec<&str> = it.split(':').collect();
     let item = vec![(p[0][1..].parse::<u32>().unwrap(), p[1][1..].parse::<u16>().unwrap(), if p[2] == "pos" { "pos" } else { "lcg" })];
     let special = case["special"].as_str().unwrap_or("").to_string();
+    // only the two disagreeing configurations are re-run ("<profile>/<std|no_std>/<kernel>/...")
+    let cfgs: Vec<String> = case["configs"].as_array().map(|a| a.iter().map(|x| x.as_str().unwrap_or("").to_string()).collect()).unwrap_or_default();
+    if what == "crash" || cfgs.len() < 2 {
+        // a crashed configuration: re-run that binary on the light item list's first item
+        let env_name = case["env"].as_str().unwrap_or("RQ_BIN_RELEASE");
+        let first: &[&str] = if env_name.contains("NOSTD") { &[] } else { &["C07", "--child"] };
+        let items = case["items"].as_str().map(crate::digest::parse_items).unwrap_or_default();
+        let items: Vec<(u32, u16, &'static str)> = items.iter().map(|i| (i.k, i.t, i.data)).collect();
+        let lines = run_binary(env_name, first, if items.is_empty() { &item } else { &items }, &special, true);
+        return match lines.iter().find(|l| l.starts_with("CRASH")) {
+            Some(c) => Err(c.split('|').next().unwrap_or(c).to_string()),
+            None => Ok(()),
+        };
+    }
     let mut lines = vec![];
-    lines.extend(run_binary("RQ_BIN_RELEASE", &["C07", "--child"], &item, &special, true));
-    lines.extend(run_binary("RQ_BIN_CHECKED", &["C07", "--child"], &item, &special, true));
-    lines.extend(run_binary("RQ_BIN_NOSTD", &[], &item, &special, false));
-    lines.extend(run_binary("RQ_BIN_NOSTD_CHECKED", &[], &item, &special, false));
-    if let Some(c) = lines.iter().find(|l| l.starts_with("CRASH")) {
-        return Err(c.clone());
+    let mut done: Vec<String> = vec![];
+    for c in &cfgs {
+        let parts: Vec<&str> = c.split('/').collect();
+        let (env_name, first): (&str, &[&str]) = match (parts[0], parts[1]) {
+            ("release", "std") => ("RQ_BIN_RELEASE", &["C07", "--child"]),
+            ("checked", "std") => ("RQ_BIN_CHECKED", &["C07", "--child"]),
+            ("release", _) => ("RQ_BIN_NOSTD", &[]),
+            _ => ("RQ_BIN_NOSTD_CHECKED", &[]),
+        };
+        let key = format!("{}:{}", env_name, parts[2]);
+        if done.contains(&key) {
+            continue;
+        }
+        done.push(key);
+        let bin = std::env::var(env_name).map_err(|_| format!("{} not set", env_name))?;
+        let out = std::process::Command::new(&bin).args(first).arg("--items").arg(items_arg(&item)).arg("--special").arg(&special).arg("--only-kernels").arg(parts[2]).output().map_err(|e| e.to_string())?;
+        let so = String::from_utf8_lossy(&out.stdout).to_string();
+        if !so.lines().any(|l| l.starts_with("DIGEST-DONE")) {
+            return Err(format!("configuration {} crashed on {}", c, it));
+        }
+        lines.extend(so.lines().filter(|l| l.starts_with("D ")).map(|l| l.to_string()));
     }
     let g = group(&lines);
-    let cfgs = g.get(&what).ok_or("item not produced")?;
-    let mut distinct: BTreeMap<&String, Vec<&String>> = BTreeMap::new();
-    for (c, d) in cfgs {
-        distinct.entry(d).or_default().push(c);
-    }
-    if distinct.len() > 1 {
-        return Err(format!("{}: {} different results: {:?}", what, distinct.len(), distinct.iter().map(|(d, c)| format!("{} <- {} configurations e.g. {}", d, c.len(), c[0])).collect::<Vec<_>>()));
+    let all = g.get(&what).ok_or("item not produced")?;
+    let a = all.get(&cfgs[0]).ok_or("first configuration not produced")?;
+    let b = all.get(&cfgs[1]).ok_or("second configuration not produced")?;
+    if a != b {
+        return Err(format!("{}: {} gives {}, {} gives {}", what, cfgs[0], a, cfgs[1], b));
     }
     Ok(())
 }
@@ -179,8 +206,11 @@ pub fn run(ctx: &Ctx) -> i32 {
     let heavy = items_for(ctx, true);
     let lines = collect(ctx, &light, &heavy, &special);
     for c in lines.iter().filter(|l| l.starts_with("CRASH")) {
-        st.violation(format!("crash:{}", c.split_whitespace().nth(1).unwrap_or("?")), format!("a build configuration crashed on the workload: {}", c), json!({"what":"crash","item":"K10:T7:pos","special":special}));
+        let env_name = c.split_whitespace().nth(1).unwrap_or("?");
+        let its = if env_name.contains("CHECKED") { items_arg(&heavy) } else { items_arg(&light) };
+        st.violation(format!("crash:{}", env_name), format!("a build configuration crashed on the workload: {}", c), json!({"what":"crash","item":"K10:T7:pos","special":special,"env":env_name,"items":its}));
     }
+    let mut diffs = 0;
     let g = group(&lines);
     let mut configs: std::collections::BTreeSet<String> = Default::default();
     let mut none_items = 0u64;
@@ -204,7 +234,16 @@ pub fn run(ctx: &Ctx) -> i32 {
             // item key is the part after enc:/dec: up to the data pattern
             let parts: Vec<&str> = what.split(':').collect();
             let item = format!("{}:{}:{}", parts[1], parts[2], parts[3]);
-            st.violation(format!("diff:{}", what), format!("{}: identical inputs give {} different results: {:?}", what, distinct.len(), desc), json!({"what":what,"item":item,"special":special}));
+            diffs += 1;
+            if diffs > 4 {
+                st.violation_count.fetch_add(1, std::sync::atomic::Ordering::Relaxed);
+                continue;
+            }
+            // representatives of the two largest classes
+            let mut classes: Vec<&Vec<&String>> = distinct.values().collect();
+            classes.sort_by_key(|c| std::cmp::Reverse(c.len()));
+            let reps = vec![classes[0][0].clone(), classes[1][0].clone()];
+            st.violation(format!("diff:{}", what), format!("{}: identical inputs give {} different results: {:?}", what, distinct.len(), desc), json!({"what":what,"item":item,"special":special,"configs":reps}));
         }
     }
     st.set_counter("configurations", configs.len() as u64);
